@@ -523,6 +523,26 @@ fn res_of<T>(r: Result<Result<T, netconf::Error>, tokio::time::error::Elapsed>, 
 }
 
 const WAIT: Duration = Duration::from_secs(5);
+/// a call is only declared hung when it is still pending after WAIT of virtual time AND this much
+/// real time: the paused clock runs ahead whenever every task is idle, however briefly the kernel
+/// takes to hand over bytes or an EOF
+const REAL_FLOOR: Duration = Duration::from_millis(300);
+
+/// `tokio::time::timeout(WAIT, fut)` with the real-time floor
+async fn patient<F: std::future::Future>(fut: F) -> Result<F::Output, tokio::time::error::Elapsed> {
+    tokio::pin!(fut);
+    let real0 = std::time::Instant::now();
+    loop {
+        match tokio::time::timeout(WAIT, &mut fut).await {
+            Ok(v) => return Ok(v),
+            Err(e) if real0.elapsed() >= REAL_FLOOR => return Err(e),
+            Err(_) => {
+                // give the kernel a moment of real time, then keep waiting (virtual time goes on)
+                std::thread::sleep(Duration::from_millis(2));
+            }
+        }
+    }
+}
 
 static EPOCH: Mutex<Option<tokio::time::Instant>> = Mutex::new(None);
 
@@ -558,10 +578,10 @@ where
             }
         };
         let filter = (k == 0 && sc.big_request > 0).then(|| netconf::message::rpc::operation::Filter::Subtree(format!("<top xmlns=\"urn:x\"><big>{}</big></top>", "0123456789abcdef".repeat(sc.big_request / 16 + 1))));
-        match tokio::time::timeout(WAIT, s.rpc::<Get, _>(|b| b.filter(filter).finish())).await {
+        match patient(s.rpc::<Get, _>(|b| b.filter(filter).finish())).await {
             Ok(Ok(f)) => {
                 let t = tokio::spawn(async move {
-                    let r = res_of(tokio::time::timeout(WAIT, f).await, |v| v.chars().take(60).collect());
+                    let r = res_of(patient(f).await, |v| v.chars().take(60).collect());
                     set(r);
                 });
                 out.lock().unwrap().abort.push(Some(Arc::new(t.abort_handle())));
@@ -581,8 +601,8 @@ where
         let _ = t.await;
     }
     if sc.extra_request {
-        let r = match tokio::time::timeout(WAIT, s.rpc::<Get, _>(|b| b.finish())).await {
-            Ok(Ok(f)) => res_of(tokio::time::timeout(WAIT, f).await, |v| v.chars().take(60).collect()),
+        let r = match patient(s.rpc::<Get, _>(|b| b.finish())).await {
+            Ok(Ok(f)) => res_of(patient(f).await, |v| v.chars().take(60).collect()),
             Ok(Err(e)) => Res::Err(format!("send: {e:?}").chars().take(200).collect()),
             Err(_) => Res::Hang,
         };
@@ -658,7 +678,7 @@ pub fn run_scenario(ctx: &mut Ctx, sc: &Scenario) -> Outcome {
                 } else {
                     (cert, key)
                 };
-                let session = tokio::time::timeout(WAIT, Session::tls(addr, "localhost", ca, cert, key)).await;
+                let session = patient(Session::tls(addr, "localhost", ca, cert, key)).await;
                 match session {
                     Ok(Err(e)) => out2.lock().unwrap().establish = Some(Res::Err(format!("{e:?}").chars().take(200).collect())),
                     Ok(Ok(s)) => client_workload(Ok(s), &sc, &out2).await,
@@ -711,7 +731,7 @@ pub fn run_scenario(ctx: &mut Ctx, sc: &Scenario) -> Outcome {
                 });
                 let wrong = format!("wrong-{}", sc.password);
                 let password: &str = if sc.bad_credentials { &wrong } else { &sc.password };
-                let session = tokio::time::timeout(WAIT, Session::ssh(addr, "operator".to_string(), password.parse().expect("infallible"))).await;
+                let session = patient(Session::ssh(addr, "operator".to_string(), password.parse().expect("infallible"))).await;
                 match session {
                     Ok(Err(e)) => out2.lock().unwrap().establish = Some(Res::Err(format!("{e:?}").chars().take(200).collect())),
                     Ok(Ok(s)) => client_workload(Ok(s), &sc, &out2).await,
@@ -735,7 +755,7 @@ pub fn run_scenario(ctx: &mut Ctx, sc: &Scenario) -> Outcome {
                 let ps3 = ps2.clone();
                 let out3 = out2.clone();
                 let cli = fakecli_path();
-                let session = tokio::time::timeout(WAIT, Session::verif_junos_local(&cli));
+                let session = patient(Session::verif_junos_local(&cli));
                 // the child is spawned synchronously inside the first poll of `session`; accept afterwards
                 let accept = async move {
                     // poll in virtual time until the helper has connected (it does so within microseconds of real time)
@@ -752,6 +772,14 @@ pub fn run_scenario(ctx: &mut Ctx, sc: &Scenario) -> Outcome {
                     };
                     sock.set_nonblocking(false).ok();
                     let (stdin_r, stdout_w, pid) = recv_fds(&sock).map_err(|e| e.to_string())?;
+                    // fakecli reports (one byte, then EOF) once it has closed its own copies of the two
+                    // descriptors: from here on only this process holds the peer's ends of the pipes, so an
+                    // EOF seen by the client never waits for another process to be scheduled
+                    {
+                        use std::io::Read;
+                        let mut ack = [0u8; 1];
+                        let _ = (&sock).read(&mut ack);
+                    }
                     let mut rx = tokio::net::unix::pipe::Receiver::from_owned_fd(stdin_r).map_err(|e| e.to_string())?;
                     let tx = tokio::net::unix::pipe::Sender::from_owned_fd(stdout_w).map_err(|e| e.to_string())?;
                     let ps4 = ps3.clone();
